@@ -180,13 +180,24 @@ impl RegObj {
 
 // --- trait family `Reg`: by-ref and by-mut methods, clonable client ------------------------------
 #[remoc::rtc::remote(clone)]
-pub trait Reg {
+pub trait Reg: Send + Sync {
     async fn get(&self, arg: Arg) -> Result<Rep, CallError>;
     #[no_cancel]
     async fn get_nc(&self, arg: Arg) -> Result<Rep, CallError>;
     async fn add(&mut self, arg: Arg) -> Result<Rep, CallError>;
     #[no_cancel]
     async fn add_nc(&mut self, arg: Arg) -> Result<Rep, CallError>;
+    // Provided methods (default bodies).  The generated client must forward them like every other method, as ONE
+    // request executed by the callee (which overrides them); a default body executed on the calling side would be
+    // two separate calls (two executions for one call, not atomic for `&mut self`).
+    async fn get_d(&self, arg: Arg) -> Result<Rep, CallError> {
+        let _ = self.get(arg.clone()).await?;
+        self.get(arg).await
+    }
+    async fn add_d(&mut self, arg: Arg) -> Result<Rep, CallError> {
+        let _ = self.add(arg.clone()).await?;
+        self.add(arg).await
+    }
 }
 
 /// A later version of `Reg` with two methods the server does not know.
@@ -214,6 +225,12 @@ impl Reg for RegObj {
     }
     async fn add_nc(&mut self, arg: Arg) -> Result<Rep, CallError> {
         self.run_mut("add_nc", arg).await
+    }
+    async fn get_d(&self, arg: Arg) -> Result<Rep, CallError> {
+        self.run_ref("get_d", arg).await
+    }
+    async fn add_d(&mut self, arg: Arg) -> Result<Rep, CallError> {
+        self.run_mut("add_d", arg).await
     }
 }
 
@@ -310,7 +327,7 @@ fn class(e: &CallError) -> String {
 impl AnyClient {
     fn supports(&self, m: &str) -> bool {
         match self {
-            AnyClient::Reg(_) => matches!(m, "get" | "get_nc" | "add" | "add_nc"),
+            AnyClient::Reg(_) => matches!(m, "get" | "get_nc" | "add" | "add_nc" | "get_d" | "add_d"),
             AnyClient::RegV2(_) => matches!(m, "get" | "get_nc" | "add" | "add_nc" | "extra" | "extra_mut"),
             AnyClient::Ro(_) => matches!(m, "get" | "get_nc"),
             AnyClient::RoV2(_) => matches!(m, "get" | "get_nc" | "extra"),
@@ -333,6 +350,8 @@ impl AnyClient {
                 "get_nc" => c.get_nc(arg).await,
                 "add" => c.add(arg).await,
                 "add_nc" => c.add_nc(arg).await,
+                "get_d" => c.get_d(arg).await,
+                "add_d" => c.add_d(arg).await,
                 _ => return unsupported(),
             },
             AnyClient::RegV2(mut c) => match m.as_str() {
